@@ -70,6 +70,7 @@ def generate(rng, tier):
     out += [sc.gen_static(rng, nest_depth=3, faults=True) for _ in range(250 * n)]
     out += fault_sweep(rng, 12 * n)
     out += [sc.gen_dynamic(rng, faults=(rng.random() < 0.4)) for _ in range(250 * n)]
+    out += sc.gen_broad(rng, 150 * n)
     return out
 
 
